@@ -428,7 +428,7 @@ fn main() {
 
     if args.replay.is_none() {
         let mut rng = Rng::new(args.seed);
-        let n_base = if args.thorough() { 500 } else { 70 };
+        let n_base = if args.thorough() { 150 } else { 70 };
         for i in 0..n_base {
             let mut r = rng.fork();
             // two families: dedup-oriented (small name pool so that merges happen), and general programs
